@@ -48,12 +48,29 @@ fn check_geometry(id: u64, ref_centre: (f64, f64), ref_corners: &[(f64, f64)], s
     if b.len() != ref_corners.len() {
         return Err(format!("{:#x} has {} corners, the reference release reported {}", id, b.len(), ref_corners.len()));
     }
-    for (i, (p, q)) in b.iter().zip(ref_corners.iter()).enumerate() {
+    // "the corners are the same physical points": the statement does not say which corner a ring starts at,
+    // so the rings are compared as cyclic sequences (same orientation): the start offset is the one that
+    // brings this tree's first corner nearest to a reference corner
+    let n = b.len();
+    let mut off = 0;
+    let mut best = f64::INFINITY;
+    for k in 0..n {
+        let (_, d, _) = same_point(b[0], ref_corners[k]);
+        if d < best {
+            best = d;
+            off = k;
+        }
+    }
+    if off != 0 {
+        st.hit("ring-starts-at-another-corner-than-in-the-reference");
+    }
+    for (i, p) in b.iter().enumerate() {
+        let q = &ref_corners[(i + off) % n];
         let (ok, d, tol) = same_point(*p, *q);
         st.fmax("corner-deviation/tolerance", d / tol);
         if !ok {
             return Err(format!(
-                "corner {} of {:#x} moved: ({}, {}) now, ({}, {}) in the reference release: {:.3e} rad apart (tolerance {:.3e})",
+                "corner {} of {:#x} moved: ({}, {}) now, nearest cyclic match ({}, {}) in the reference release: {:.3e} rad apart (tolerance {:.3e})",
                 i, id, p.0, p.1, q.0, q.1, d, tol
             ));
         }
